@@ -85,7 +85,7 @@ def main(ck, tier, w):
         probs = []
         last = None
         for cb in cbs:
-            r = run.run_parser(d, cb, dump=w.mk('out') if cb in cbs[:3] else None, coin=coin, timeout=120, verbose=(k + len(cb)) % 3 if cb != 'opreturn' else 0)
+            r = run.run_parser(d, cb, dump=w.mk('out') if cb in cbs[:3] else None, coin=coin, timeout=120, verbose=(k + len(cb)) % 3)
             last = r
             if r.rc != 0:
                 probs.append('%s: exit status %d: %s' % (cb, r.rc, r.stderr[-300:]))
